@@ -10,7 +10,7 @@ CountingCore == /\ 0 <= used /\ used <= N /\ Len(sleeps) = used
                 /\ (Ph = "send" => sent = used)
                 /\ (Ph \in {"decide", "done"} => sent = used + 1)
                 /\ sent <= N + 1
-EmitScn == phase = "done" => PrintT(<<"SCN", ToJson([cfg |-> cfg, script |-> script])>>)
+EmitScn == (phase = "done" /\ Len(past) + 1 = cfg.rounds) => PrintT(<<"SCN", ToJson([cfg |-> cfg, scripts |-> Append(past, script)])>>)
 
 BO(f, a, b, m, j) == [fam |-> f, a |-> a, b |-> b, max |-> m, jit |-> j]
 B1 == BO("periodic", 2, 0, -1, <<>>)
@@ -20,7 +20,10 @@ B4 == BO("exponential", 2, 3, 5, <<1, 1, 1>>)
 B5 == BO("fibonacci", 1, 0, 1, <<>>)            \* the library default cap 1.0
 B6 == BO("fibonacci", 3, 0, 7, <<1, 2, 1, 1>>)      \* cap reached at the 2nd delay, with non-zero jitter
 B7 == BO("exponential", 4, 2, 3, <<>>)          \* cap below the first delay
-Backoffs == {B1, B2, B3, B4, B5, B6, B7}
+B8 == BO("exponential", 5, 1, 4, <<-1, 0, -2, 1>>)  \* factor 1, negative jitter, cap reached
+B9 == BO("exponential", 3, 1, -1, <<>>)              \* factor 1, no cap: constant delays
+B10 == BO("periodic", 2, 0, -1, <<0, 3, 0>>)
+Backoffs == {B1, B2, B3, B4, B5, B6, B7, B8, B9, B10}
 St(n, c, e, bo) == [k |-> "strategy", s |-> [n |-> n, codes |-> c, excs |-> e, bo |-> bo]]
 None_ == [k |-> "none", s |-> NoStrategy.s]
 Unset == [k |-> "unset", s |-> NoStrategy.s]
@@ -29,7 +32,8 @@ NoneK(k) == [k |-> k, s |-> NoStrategyS]
 Other == St(1, "one", "none", B1)
 CE == {<<"one", "none">>, <<"none", "one">>, <<"several", "several">>, <<"empty", "empty">>, <<"none", "none">>, <<"one", "one">>}
 Sources(S) == {<<S, NoneK("unset")>>, <<NoneK("none"), S>>, <<Other, S>>, <<S, NoneK("none")>>, <<NoneK("none"), NoneK("unset")>>}
-C(kd, rq, cl, pr, tr, cm) == [kind |-> kd, req |-> rq, client |-> cl, perreq |-> pr, tracers |-> tr, ctxmode |-> cm]
+C(kd, rq, cl, pr, tr, cm) == [kind |-> kd, req |-> rq, client |-> cl, perreq |-> pr, tracers |-> tr, ctxmode |-> cm, rounds |-> 1]
+R2(c) == [c EXCEPT !.rounds = 2]
 Kinds2 == {"sync", "async"}
 Reqs == {"single", "batch", "notification"}
 
@@ -39,9 +43,14 @@ InitC09(maxn) ==
           \E src \in Sources(St(n, ce[1], ce[2], bo)) : InitWith(C(kd, rq, src[1], src[2], 0, "default"))
     \/ \E kd \in Kinds2, rq \in Reqs, n \in 1..(maxn + 1), bo \in Backoffs :
           InitWith(C(kd, rq, St(n, "one", "one", bo), NoneK("unset"), 0, "default"))
+    \* two requests one after the other on the SAME client / strategy objects (no jitter: a scripted jitter function is stateful)
+    \/ \E kd \in Kinds2, rq \in {"single"}, n \in 1..(IF maxn > 2 THEN 2 ELSE 1), bo \in {B1, B9} :
+          \/ InitWith(R2(C(kd, rq, St(n, "one", "one", bo), NoneK("unset"), 0, "default")))
+          \/ InitWith(R2(C(kd, rq, NoneK("none"), St(n, "one", "one", bo), 0, "default")))
 \* C19: tracers x context mode x all outcomes in the sequences the strategies permit
 InitC19(maxn) ==
     \E kd \in Kinds2, rq \in Reqs, n \in 0..maxn, tr \in 0..3, cm \in {"caller", "default"} :
        \/ InitWith(C(kd, rq, St(n, "one", "one", B1), NoneK("unset"), tr, cm))
        \/ n = 0 /\ InitWith(C(kd, rq, NoneK("none"), NoneK("unset"), tr, cm))
+       \/ n = 1 /\ tr = 1 /\ InitWith(R2(C(kd, rq, St(n, "one", "one", B1), NoneK("unset"), tr, cm)))
 =============================================================================
